@@ -28,6 +28,16 @@ Theorem C17_freeze_resolves_eagerly : forall (look : name -> option val) (B : li
 Proof. exact freeze_resolves_eagerly. Qed.
 Print Assumptions C17_freeze_resolves_eagerly.
 
+(* the constant folding of a call happens exactly when the (frozen) callee is the builtin named "-"
+   and there is exactly one argument, a numeric constant; every other call is left as a call *)
+Theorem C17_negative_literal_fold : forall (f : expr) (args : list expr),
+  (exists p a z, f = EFrozen (VPrim PSub p) /\ args = [a] /\ constant_value a = Some (VInt z) /\
+                 fold_call f args = EFrozen (VInt (- z))) \/
+  ((~ exists p a z, f = EFrozen (VPrim PSub p) /\ args = [a] /\ constant_value a = Some (VInt z)) /\
+   fold_call f args = ECall f args).
+Proof. exact fold_call_spec. Qed.
+Print Assumptions C17_negative_literal_fold.
+
 (* freeze preserves meaning, and binds eagerly.  `cur0` is the frame in which the expression was frozen
    and is evaluated, `n0` the number of frames of the store at the start (so cur0 < n0); `srel` relates
    the store `st` of the original run and the store `st'` of the frozen run (same frames and
@@ -40,9 +50,8 @@ Print Assumptions C17_freeze_resolves_eagerly.
    assigned in a pre-existing frame - the hypothesis "r <> Sig STrap" is the property's "e's free
    variables are not reassigned between the freeze and the use".
    Fragment: `declared_before_captured mutl B e` (Lang/FreezeDbc.v) - no name that freeze resolves
-   inside a lambda is declared by a scope enclosing that lambda; the first iteratee of a for loop
-   declares nothing; values frozen into the source contain no closures; an identifier that freeze
-   keeps (bound by the expression) is not named in mutl.
+   inside a lambda is declared by a scope enclosing that lambda; values frozen into the source
+   contain no closures; an identifier that freeze keeps (bound by the expression) is not named in mutl.
    Conclusion: the protected run is the run of the plain evaluator (`noprot`), and the plain
    evaluator on the frozen expression, in the store with the reassigned variables, ends (same fuel)
    with a related store, the same printed output and a related result (`rres`: value / thrown value
@@ -76,8 +85,7 @@ Print Assumptions C17_reassignment_keeps_relation.
 (* the hypotheses are met by every store whose closures are ordinary source code: a well-formed
    store is related to itself (and, taken as the freeze-time store, agrees with itself) as soon as
    the bodies of the closures it holds mention no identifier named in mutl, contain no frozen
-   closure and declare nothing in the first iteratee of a for loop (`selfok`), and their
-   environments are frames of the store (`valok`, `frame_ok`) *)
+   closure (`selfok`), and their environments are frames of the store (`valok`, `frame_ok`) *)
 Theorem C17_store_related_to_itself : forall (mutl : list name) (FV : name -> option val) (n0 cur0 : nat)
     (resl : list name) (st : state),
   cur0 < n0 -> n0 <= length (frames st) -> wf_frames (frames st) ->
